@@ -114,8 +114,9 @@ def real_to_rel(proj, root):
 # --------------------------------------------------------------------------
 
 def expand_named(root, argv):
-    """canonical paths of the files named on the command line (directories
-    stand for the .circom files below them)."""
+    """canonical paths of the files named on the command line: a named path
+    that is not a directory is an input whatever its suffix; a named directory
+    stands for the .circom files below it."""
     out = []
 
     def go(p, depth):
@@ -124,7 +125,7 @@ def expand_named(root, argv):
             if depth < 40:
                 for e in sorted(os.listdir(q)):
                     go(pjoin(p, e), depth + 1)
-        elif ext_is_circom(p) and os.path.exists(q):
+        elif (depth == 0 or ext_is_circom(p)) and os.path.exists(q):
             out.append(os.path.realpath(q))
     for a in argv:
         go(a, 0)
@@ -146,9 +147,10 @@ def resolve(root, cfile, inc, libs):
     """The include `inc` of canonical file `cfile`: relative to the including
     file first, then the -L libraries in the order given (a directory library
     for names not starting with '.', a file library for single-component
-    names equal to its file name)."""
+    names equal to its file name).  Only a file can be included: a path that
+    exists but is not a regular file does not count as found."""
     cand = pjoin(os.path.dirname(cfile), inc)
-    if os.path.exists(cand):
+    if os.path.isfile(cand):
         return os.path.realpath(cand)
     for kind, lib in libs:
         if kind == "dir":
@@ -156,7 +158,7 @@ def resolve(root, cfile, inc, libs):
                 continue
             cand = pjoin(lib, inc)
             cand = cand if cand.startswith("/") else os.path.join(root, cand)
-            if os.path.exists(cand):
+            if os.path.isfile(cand):
                 return os.path.realpath(cand)
         else:
             if "/" not in inc and os.path.basename(lib) == inc:
@@ -328,6 +330,7 @@ def abstract(proj, root):
         lst(argv), lst(libs),
         lst(["%s,%s" % (k, v if v else "-") for k, v in sorted(canon.items())]),
         lst([",".join([k] + (v or [])) for k, v in sorted(dirs.items())]),
+        lst(sorted({v for v in canon.values() if v and os.path.isfile(v)})),
         lst(contents)])
 
 
@@ -609,22 +612,13 @@ def run(ctx, proofs):
         disagreements, failing = [], []
         keys = set()
         shapes_count = {}
-        known_ids = {k["id"]: k for k in ctx.known}
-        KF_DIR = "C19-include-unreadable"
-        suppressed = 0
         for r in res:
             keys.add(nontrivial_key(r["proj"], r["impl"]))
             shapes_count[r["proj"].get("shape")] = shapes_count.get(r["proj"].get("shape"), 0) + 1
             if r["model"] != r["norm"]:
                 disagreements.append(r)
             if r["fails"]:
-                # a failure is covered by the known finding only if every failed
-                # clause of the project is of the narrow class of that finding
-                if KF_DIR in known_ids and all(f.get("class") == "include-resolves-to-directory" for f in r["fails"]):
-                    suppressed += 1
-                    ctx.known_finding(KF_DIR, known_ids[KF_DIR]["what"])
-                else:
-                    failing.append(r)
+                failing.append(r)
         for r in failing[:5]:
             f = r["fails"][0]
             ctx.violation("include handling violates the property (%s): %s" % (f["clause"], f["detail"].replace(r["root"], "@")[:400]),
@@ -659,11 +653,9 @@ def run(ctx, proofs):
             "projects_with_symlinks": sum(1 for r in res if r["proj"].get("links")),
             "disagreements_model_vs_impl": len(disagreements),
             "spec_failures": len(failing),
-            "projects_failing_only_in_known_class": suppressed,
+            "projects_including_a_directory": sum(1 for r in res if r["proj"].get("shape") == "random" and any(
+                os.path.basename(i) in ("src", "sub", "other", "lib1", "lib2", ".", "..") for f in r["proj"]["files"].values() for i in f["incs"])),
             "tables_with_idempotent_canon": sum(1 for r in res if r["canon_idempotent"]),
-            "open_statements": ["C19_every_include_served_full_statement (false: known finding C19-include-unreadable; "
-                                "proved outside the class as C19_every_include_served_outside_KF, refuted inside it by "
-                                "C19_include_unreadable_refuted)"],
         })
         ctx.assumptions += [
             "the abstract file system of the theorems (canon, is_dir, read_dir, join, parent, file_name) is a Section parameter; "
